@@ -17,7 +17,8 @@ EllipsisC == T("const", "Ellipsis", 0, <<>>, <<>>)
 Split2(r) == {<<i, r - i>> : i \in 0..r}
 Split3(r) == {<<q[1], q[2], r - q[1] - q[2]>> : q \in {w \in (0..r) \X (0..r) : w[1] + w[2] <= r}}
 
-Leaves(sc) == {Name(sc[i]) : i \in 1..Len(sc)} \cup {Attr(Name(sc[Len(sc)]), "a"), IntC(1), StrC("s")}
+(* g is a free name (not a parameter, not a capture when the lambda is given as text / ast) *)
+Leaves(sc) == {Name(sc[i]) : i \in 1..Len(sc)} \cup {Attr(Name(sc[Len(sc)]), "a"), IntC(1), StrC("s"), Name("g")}
 
 NonLeaf(h) ==
     LET b == h.n  sc == h.p  r == b - 1
@@ -28,6 +29,9 @@ NonLeaf(h) ==
        {Meth(H(r), "m", <<>>), Fn("f", <<H(r)>>), Fn("abs", <<H(r)>>), Fn("len", <<H(r)>>),
         CallK(Attr(Name("e"), "m"), <<>>, <<"kw">>, <<H(r)>>), Sub(H(r), Slice(IntC(1), Absent, Absent))} \cup
        {Meth(H(sp[1]), "m", <<H(sp[2])>>) : sp \in Split2(r)} \cup
+       \* a method call whose receiver is a function name / a lambda literal (an odd but legal expression)
+       {Meth(Name(fnm), "m", <<H(r)>>) : fnm \in {"len", "abs", "f"}} \cup
+       {Meth(Lam1("j", Hole(sp[1], Append(sc, "j"))), "m", <<H(sp[2])>>) : sp \in Split2(r)} \cup
        {CallK(Name("f"), <<H(sp[1])>>, <<"kw">>, <<H(sp[2])>>) : sp \in Split2(r)} \cup
        {Sub(H(sp[1]), H(sp[2])) : sp \in Split2(r)} \cup
        {Sub(Tup(<<H(sp[1]), H(sp[2])>>), ix) : sp \in Split2(r),
